@@ -18,14 +18,72 @@ from .report import VERIF_DIR, load_known
 def load_cases(prop):
     try:
         mod = importlib.import_module('.selftest_data.' + prop.lower(), __package__)
+        cases = list(mod.CASES)
     except ModuleNotFoundError:
-        return []
-    return list(mod.CASES)
+        cases = []
+    # seeded changes written by independent sub-agents: each must be flagged by the rule recorded in its meta.json
+    seeded = os.path.join(VERIF_DIR, 'seeded')
+    if os.path.isdir(seeded):
+        for name in sorted(os.listdir(seeded)):
+            meta_path = os.path.join(seeded, name, 'meta.json')
+            if not os.path.exists(meta_path):
+                continue
+            meta = json.load(open(meta_path))
+            for exp in meta.get('expected_detection', []):
+                if exp['property'] == prop:
+                    cases.append(dict(name='seeded-' + name, kind='mutant', rule=exp['rule'], key=exp.get('key', ''),
+                                      edits=[dict(diff=os.path.join('seeded', name, 'patch.diff'))]))
+    return cases
+
+
+def apply_unified_diff(repo_root, diff_text):
+    """Minimal unified-diff applier (exact context match, searched near the stated line). Returns overlay or
+    (None, reason)."""
+    import re
+    overlay = {}
+    files = re.split(r'^diff --git ', diff_text, flags=re.M)[1:]
+    for chunk in files:
+        m = re.search(r'^\+\+\+ b/(.+)$', chunk, flags=re.M)
+        if not m:
+            return None, 'no target file in diff chunk'
+        rel = m.group(1).strip()
+        path = os.path.join(repo_root, rel)
+        src = overlay.get(rel)
+        if src is None:
+            src = open(path, encoding='utf-8').read() if os.path.exists(path) else ''
+        lines = src.split('\n')
+        offset = 0
+        for hm in re.finditer(r'^@@ -(\d+)(?:,(\d+))? \+(\d+)(?:,(\d+))? @@.*\n((?:[ +\-\\].*\n?|\n)*)', chunk, flags=re.M):
+            start = int(hm.group(1))
+            body = hm.group(5).split('\n')
+            if body and body[-1] == '':
+                body = body[:-1]
+            old = [l[1:] for l in body if l[:1] in (' ', '-')]
+            new = [l[1:] for l in body if l[:1] in (' ', '+')]
+            pos = None
+            for delta in sorted(range(-40, 41), key=abs):
+                i = start - 1 + offset + delta
+                if i >= 0 and lines[i:i + len(old)] == old:
+                    pos = i
+                    break
+            if pos is None:
+                return None, '%s: hunk at line %d does not match the current tree' % (rel, start)
+            lines[pos:pos + len(old)] = new
+            offset += len(new) - len(old)
+        overlay[rel] = '\n'.join(lines)
+    return overlay, None
 
 
 def build_overlay(repo_root, edits):
     overlay = {}
     for e in edits:
+        if e.get('diff') is not None:
+            path = e['diff'] if os.path.isabs(e['diff']) else os.path.join(VERIF_DIR, e['diff'])
+            ov, why = apply_unified_diff(repo_root, open(path).read())
+            if ov is None:
+                return None, why
+            overlay.update(ov)
+            continue
         rel = e['file']
         if rel in overlay:
             src = overlay[rel]
